@@ -53,10 +53,10 @@ func (r *NodeManagement) processReadDetailedDiscoveryData(deviceRemote api.Devic
 func (r *NodeManagement) processReplyDetailedDiscoveryData(message *api.Message, data *model.NodeManagementDetailedDiscoveryDataType) error {
 	remoteDevice := message.DeviceRemote
 
-	deviceDescription := data.DeviceInformation.Description
-	if deviceDescription == nil {
+	if data.DeviceInformation == nil || data.DeviceInformation.Description == nil {
 		return errors.New("nodemanagement.replyDetailedDiscoveryData: invalid DeviceInformation.Description")
 	}
+	deviceDescription := data.DeviceInformation.Description
 
 	remoteDevice.UpdateDevice(deviceDescription)
 	entities, err := remoteDevice.AddEntityAndFeatures(true, data)
